@@ -173,14 +173,13 @@ theorem loadedRaft_absLog (val : Val) (hst : st.WF) :
   rw [newLog_abs hst]
 
 theorem loadedRaft_static {n : Nat} (hid : c.id = n) (hnz : c.id ≠ 0) (hmem : n ∈ voters)
-    (hpv : c.preVote = false) (hcq : c.checkQuorum = false)
+    (hpv : c.preVote = false)
     (hk : ∀ v, v ∈ voters ↔ (mapGet trk v).isSome = true)
     (hl : ∀ v pr, mapGet trk v = some pr → pr.isLearner = false) :
     RaftStatic voters n (loadedRaft c voters st trk draws) where
   id := (cfgFill_id c).trans hid
   idnz := hid ▸ hnz
   pv := (cfgFill_fields c).2.1.trans hpv
-  cq := (cfgFill_fields c).2.2.trans hcq
   xfer := rfl
   pri := rfl
   ro := rfl
@@ -240,7 +239,7 @@ theorem restart_nodeInv {val : Val} {voters : List Id} {n : Nat} {rn rn' : RawNo
     {msgs : List Spec.Msg} {c : Config} {draws : List Nat}
     (hinv : NodeInv val voters n rn nd msgs) (hset : Settled rn.raft) (hdur : DurInv val voters rn nd)
     (hsorted : voters.Pairwise (· < ·)) (h0 : 0 ∉ voters)
-    (hid : c.id = n) (hpv : c.preVote = false) (hcq : c.checkQuorum = false) (hasync : c.asyncStorageWrites = false)
+    (hid : c.id = n) (hpv : c.preVote = false) (hasync : c.asyncStorageWrites = false)
     (happ : c.applied = 0)
     (hle : ∀ e ∈ nd.dur.log, e.term ≤ nd.dur.term)
     (hrv : ∀ t lt li, Spec.Msg.reqVote t n lt li ∈ msgs → t ≤ nd.dur.term)
@@ -257,7 +256,7 @@ theorem restart_nodeInv {val : Val} {voters : List Id} {n : Nat} {rn rn' : RawNo
   have hsn : rn.raft.log.storage.snapshot.conf = { voters := voters } := by rw [hdur.snap]; rfl
   obtain ⟨hnz, trk, hc, hrun, hk, hl⟩ := newRaft_restart hsn hoff hsorted h0 happ hr
   have hL := loadedRaft_inv val (nd := nd) (msgs := msgs) (draws := draws)
-    (loadedRaft_static hid hnz hinv.inv.st.self hpv hcq hk hl) (loadedRaft_wf hstw hoff hc)
+    (loadedRaft_static hid hnz hinv.inv.st.self hpv hk hl) (loadedRaft_wf hstw hoff hc)
     (loadedRaft_unc hoff hdt) ((loadedRaft_absLog val hstw).trans hdur.log.symm) hdur.term hdur.vote hdur.commit
     hle hrv
   obtain ⟨d, rest, hd, hr'⟩ := becomeFollower_run_exact hrun
